@@ -140,7 +140,7 @@ class Plane:
         ndarray
 
         """
-        if self.size < 2:
+        if self.mask.ndim < 3:
             return self.mask
         else:
             return np.sum(self.mask, axis=0)
@@ -194,7 +194,7 @@ class Plane:
         -------
         tuple of ints
         """
-        if self.size == 1:
+        if self.mask.ndim < 3:
             return self.mask.shape
         else:
             return self.mask.shape[1], self.mask.shape[2]
@@ -453,7 +453,7 @@ class Plane:
                 # contain only the data within the current mask and not any data 
                 # contained in adjacent masks that may be present in the sliced
                 # amp and opd arrays.
-                mask = self.mask if self.size == 1 else self.mask[n]
+                mask = self.mask if self.mask.ndim < 3 else self.mask[n]
                 amp = self.amplitude * mask[s] if self.amplitude.size == 1 else self.amplitude[s] * mask[s]
                 opd = self.opd if self.opd.size == 1 else self.opd[s]
 
